@@ -83,70 +83,116 @@ Section SOUND.
   (* the main statement, per block *)
   Theorem term_lands b s tb T :
     pos_of cert b = Some (s, tb) -> last_inst (nth_block f b) = Some T ->
-    (forall top st t, vsel T top = Some t ->
-       exists k sr, start_of cert (res f cert t) = Some sr /\
-         csteps asm k (tb, if String.eqb (i_op T) "jnz" then top :: st else st) = Some (sr, st)) /\
+    exists k neg, term_len f asm cert (nth_block f b) T tb = Some (k, neg) /\
+    (neg = true -> cond_is_iszero (nth_block f b) = true) /\
+    (forall top st t, vsel T (if neg then isz top else top) = Some t ->
+       exists n sr, start_of cert (res f cert t) = Some sr /\
+         csteps asm n (tb, if String.eqb (i_op T) "jnz" then top :: st else st) = Some (sr, st)) /\
     (i_op T = "djmp" -> forall t st, In t (labels_of (i_args T)) ->
        exists sr, start_of cert (res f cert t) = Some sr /\ nth_error asm sr = Some (ALabel (res f cert t)) /\
                   cstep asm (tb, Z.of_nat sr :: st) = Some (sr, st)).
   Proof.
     intros Hp HT. destruct (HC_block _ _ _ Hp) as [e He]. unfold block_end in He. rewrite Hp, HT in He.
-    destruct (Nat.leb s tb); try discriminate. destruct (term_len f asm cert T tb) as [k|] eqn:Ek; try discriminate. clear He.
-    unfold term_len in Ek. split.
-    - intros top st t Hv. unfold vsel in Hv. destruct (String.eqb (i_op T) "jmp") eqn:Ejmp.
-      + assert (Ejnz : String.eqb (i_op T) "jnz" = false) by (apply String.eqb_eq in Ejmp; rewrite Ejmp; reflexivity). rewrite Ejnz.
-        destruct (i_args T) as [|[| |t0] [|]]; try discriminate Hv; try discriminate Ek. inversion Hv; subst t0.
-        destruct (match_at asm tb [APushLabel (res f cert t); AJump] && labelled_at asm cert (res f cert t)) eqn:E1.
-        * apply andb_true_iff in E1 as [Hm Hl]. destruct (labelled_at_spec _ _ _ Hl) as [sr [Hs Hlab]].
-          exists 2%nat, sr. split; auto.
-          pose proof (match_at_nth _ _ tb 0 _ Hm eq_refl) as H0. pose proof (match_at_nth _ _ tb 1 _ Hm eq_refl) as H1.
-          rewrite Nat.add_0_r in H0. replace (tb + 1)%nat with (S tb) in H1 by lia.
-          cbn [csteps]. rewrite (push_step _ _ _ _ H0 Hlab). cbn [cstep]. rewrite H1. now rewrite (jump_to_label _ _ _ _ Hlab).
-        * destruct (starts_at cert (res f cert t) tb) eqn:E2; try discriminate Hv; try discriminate Ek. exists 0%nat, tb. split; [now apply starts_at_spec|reflexivity].
-      + destruct (String.eqb (i_op T) "jnz") eqn:Ejnz; try discriminate Hv; try discriminate Ek.
-        destruct (i_args T) as [|c0 [|[| |t0] [|[| |e0] [|]]]]; try discriminate Hv; try discriminate Ek.
+    destruct (Nat.leb s tb); try discriminate.
+    destruct (term_len f asm cert (nth_block f b) T tb) as [[k neg]|] eqn:Ek; try discriminate. clear He.
+    exists k, neg. split; auto. unfold term_len in Ek.
+    destruct (String.eqb (i_op T) "jmp") eqn:Ejmp.
+    - (* jmp *)
+      assert (Eop : i_op T = "jmp") by now apply String.eqb_eq.
+      assert (Ejnz : String.eqb (i_op T) "jnz" = false) by (rewrite Eop; reflexivity).
+      destruct (i_args T) as [|[| |t0] [|]] eqn:Ea; try discriminate Ek.
+      assert (Hdj : i_op T = "djmp" -> forall t st, In t (labels_of (i_args T)) ->
+         exists sr, start_of cert (res f cert t) = Some sr /\ nth_error asm sr = Some (ALabel (res f cert t)) /\
+                    cstep asm (tb, Z.of_nat sr :: st) = Some (sr, st)) by (intros E; rewrite Eop in E; discriminate E).
+      destruct (match_at asm tb [APushLabel (res f cert t0); AJump] && labelled_at asm cert (res f cert t0)) eqn:E1.
+      + inversion Ek; subst k neg. split; [discriminate|]. split; [|rewrite <- Ea; exact Hdj].
+        intros top st t Hv. unfold vsel in Hv. rewrite Ejmp, Ea in Hv. inversion Hv; subst t. rewrite Ejnz.
+        apply andb_true_iff in E1 as [Hm Hl]. destruct (labelled_at_spec _ _ _ Hl) as [sr [Hs Hlab]].
+        exists 2%nat, sr. split; auto.
+        pose proof (match_at_nth _ _ tb 0 _ Hm eq_refl) as H0. pose proof (match_at_nth _ _ tb 1 _ Hm eq_refl) as H1.
+        rewrite Nat.add_0_r in H0. replace (tb + 1)%nat with (S tb) in H1 by lia.
+        cbn [csteps]. rewrite (push_step _ _ _ _ H0 Hlab). cbn [cstep]. rewrite H1. now rewrite (jump_to_label _ _ _ _ Hlab).
+      + destruct (starts_at cert (res f cert t0) tb) eqn:E2; try discriminate Ek. inversion Ek; subst k neg.
+        split; [discriminate|]. split; [|rewrite <- Ea; exact Hdj].
+        intros top st t Hv. unfold vsel in Hv. rewrite Ejmp, Ea in Hv. inversion Hv; subst t. rewrite Ejnz.
+        exists 0%nat, tb. split; [now apply starts_at_spec|reflexivity].
+    - destruct (String.eqb (i_op T) "jnz") eqn:Ejnz.
+      + (* jnz *)
+        assert (Eop : i_op T = "jnz") by now apply String.eqb_eq.
+        destruct (i_args T) as [|c0 [|[| |t0] [|[| |e0] [|]]]] eqn:Ea; try discriminate Ek.
+        assert (Hdj : i_op T = "djmp" -> forall t st, In t (labels_of (i_args T)) ->
+           exists sr, start_of cert (res f cert t) = Some sr /\ nth_error asm sr = Some (ALabel (res f cert t)) /\
+                      cstep asm (tb, Z.of_nat sr :: st) = Some (sr, st)) by (intros E; rewrite Eop in E; discriminate E).
         set (rt := res f cert t0) in *. set (re := res f cert e0) in *.
+        assert (Hvs : forall v t, vsel T v = Some t -> t = (if (v =? 0)%Z then e0 else t0)).
+        { intros v t Hv. unfold vsel in Hv. rewrite Ejmp, Ejnz, Ea in Hv. now inversion Hv. }
         destruct (match_at asm tb [APushLabel rt; AJumpi; APushLabel re; AJump] && labelled_at asm cert rt && labelled_at asm cert re) eqn:E1.
-        { apply andb_true_iff in E1 as [E1 Hle]. apply andb_true_iff in E1 as [Hm Hlt].
+        { inversion Ek; subst k neg. split; [discriminate|]. split; [|rewrite <- Ea; exact Hdj].
+          intros top st t Hv. apply Hvs in Hv.
+          apply andb_true_iff in E1 as [E1 Hle]. apply andb_true_iff in E1 as [Hm Hlt].
           destruct (labelled_at_spec _ _ _ Hlt) as [st_ [Hst Hlabt]]. destruct (labelled_at_spec _ _ _ Hle) as [se [Hse Hlabe]].
           pose proof (match_at_nth _ _ tb 0 _ Hm eq_refl) as H0. pose proof (match_at_nth _ _ tb 1 _ Hm eq_refl) as H1.
           pose proof (match_at_nth _ _ tb 2 _ Hm eq_refl) as H2. pose proof (match_at_nth _ _ tb 3 _ Hm eq_refl) as H3.
           rewrite Nat.add_0_r in H0. replace (tb + 1)%nat with (S tb) in H1 by lia. replace (tb + 2)%nat with (S (S tb)) in H2 by lia.
           replace (tb + 3)%nat with (S (S (S tb))) in H3 by lia.
-          destruct (top =? 0)%Z eqn:Ez; inversion Hv; subst t.
+          destruct (top =? 0)%Z eqn:Ez; subst t.
           - exists 4%nat, se. split; auto. cbn [csteps]. rewrite (push_step _ _ _ _ H0 Hlabt). cbn [cstep]. rewrite H1, Ez.
             rewrite (push_step _ _ _ _ H2 Hlabe). cbn [cstep]. rewrite H3. now rewrite (jump_to_label _ _ _ _ Hlabe).
           - exists 2%nat, st_. split; auto. cbn [csteps]. rewrite (push_step _ _ _ _ H0 Hlabt). cbn [cstep]. rewrite H1, Ez.
             now rewrite (jump_to_label _ _ _ _ Hlabt). }
         destruct (match_at asm tb [APushLabel rt; AJumpi] && labelled_at asm cert rt && starts_at cert re (tb + 2)) eqn:E2.
-        { apply andb_true_iff in E2 as [E2 Hse]. apply andb_true_iff in E2 as [Hm Hlt].
+        { inversion Ek; subst k neg. split; [discriminate|]. split; [|rewrite <- Ea; exact Hdj].
+          intros top st t Hv. apply Hvs in Hv.
+          apply andb_true_iff in E2 as [E2 Hse]. apply andb_true_iff in E2 as [Hm Hlt].
           destruct (labelled_at_spec _ _ _ Hlt) as [st_ [Hst Hlabt]]. apply starts_at_spec in Hse.
           pose proof (match_at_nth _ _ tb 0 _ Hm eq_refl) as H0. pose proof (match_at_nth _ _ tb 1 _ Hm eq_refl) as H1.
           rewrite Nat.add_0_r in H0. replace (tb + 1)%nat with (S tb) in H1 by lia.
-          destruct (top =? 0)%Z eqn:Ez; inversion Hv; subst t.
+          destruct (top =? 0)%Z eqn:Ez; subst t.
           - exists 2%nat, (tb + 2)%nat. split; auto. cbn [csteps]. rewrite (push_step _ _ _ _ H0 Hlabt). cbn [cstep]. rewrite H1, Ez.
             f_equal. f_equal. lia.
           - exists 2%nat, st_. split; auto. cbn [csteps]. rewrite (push_step _ _ _ _ H0 Hlabt). cbn [cstep]. rewrite H1, Ez.
             now rewrite (jump_to_label _ _ _ _ Hlabt). }
-        destruct (match_at asm tb [AIszero; APushLabel re; AJumpi] && labelled_at asm cert re && starts_at cert rt (tb + 3)) eqn:E3; try discriminate Hv; try discriminate Ek.
-        apply andb_true_iff in E3 as [E3 Hst]. apply andb_true_iff in E3 as [Hm Hle].
+        destruct (match_at asm tb [AIszero; APushLabel re; AJumpi] && labelled_at asm cert re && starts_at cert rt (tb + 3)) eqn:E3.
+        { inversion Ek; subst k neg. split; [discriminate|]. split; [|rewrite <- Ea; exact Hdj].
+          intros top st t Hv. apply Hvs in Hv.
+          apply andb_true_iff in E3 as [E3 Hst]. apply andb_true_iff in E3 as [Hm Hle].
+          destruct (labelled_at_spec _ _ _ Hle) as [se [Hse Hlabe]]. apply starts_at_spec in Hst.
+          pose proof (match_at_nth _ _ tb 0 _ Hm eq_refl) as H0. pose proof (match_at_nth _ _ tb 1 _ Hm eq_refl) as H1.
+          pose proof (match_at_nth _ _ tb 2 _ Hm eq_refl) as H2.
+          rewrite Nat.add_0_r in H0. replace (tb + 1)%nat with (S tb) in H1 by lia. replace (tb + 2)%nat with (S (S tb)) in H2 by lia.
+          destruct (top =? 0)%Z eqn:Ez; subst t.
+          - (* cond = 0: ISZERO gives 1, the JUMPI to the else-block is taken *)
+            exists 3%nat, se. split; auto. cbn [csteps cstep]. rewrite H0. rewrite (push_step _ _ _ _ H1 Hlabe). cbn [cstep]. rewrite H2.
+            unfold isz. rewrite Ez. simpl. now rewrite (jump_to_label _ _ _ _ Hlabe).
+          - exists 3%nat, (tb + 3)%nat. split; auto. cbn [csteps cstep]. rewrite H0. rewrite (push_step _ _ _ _ H1 Hlabe). cbn [cstep]. rewrite H2.
+            unfold isz. rewrite Ez. simpl. f_equal. f_equal. lia. }
+        destruct (cond_is_iszero (nth_block f b) && match_at asm tb [APushLabel re; AJumpi] && labelled_at asm cert re && starts_at cert rt (tb + 2)) eqn:E4;
+          try discriminate Ek.
+        inversion Ek; subst k neg.
+        apply andb_true_iff in E4 as [E4 Hst]. apply andb_true_iff in E4 as [E4 Hle]. apply andb_true_iff in E4 as [Hci Hm].
+        split; [auto|]. split; [|rewrite <- Ea; exact Hdj].
+        intros top st t Hv. apply Hvs in Hv.
         destruct (labelled_at_spec _ _ _ Hle) as [se [Hse Hlabe]]. apply starts_at_spec in Hst.
         pose proof (match_at_nth _ _ tb 0 _ Hm eq_refl) as H0. pose proof (match_at_nth _ _ tb 1 _ Hm eq_refl) as H1.
-        pose proof (match_at_nth _ _ tb 2 _ Hm eq_refl) as H2.
-        rewrite Nat.add_0_r in H0. replace (tb + 1)%nat with (S tb) in H1 by lia. replace (tb + 2)%nat with (S (S tb)) in H2 by lia.
-        destruct (top =? 0)%Z eqn:Ez; inversion Hv; subst t.
-        * (* cond = 0: ISZERO gives 1, the JUMPI to the else-block is taken *)
-          exists 3%nat, se. split; auto. cbn [csteps cstep]. rewrite H0. rewrite (push_step _ _ _ _ H1 Hlabe). cbn [cstep]. rewrite H2.
-          unfold isz. rewrite Ez. simpl. now rewrite (jump_to_label _ _ _ _ Hlabe).
-        * exists 3%nat, (tb + 3)%nat. split; auto. cbn [csteps cstep]. rewrite H0. rewrite (push_step _ _ _ _ H1 Hlabe). cbn [cstep]. rewrite H2.
-          unfold isz. rewrite Ez. simpl. f_equal. f_equal. lia.
-    - intros Hop t st Hin. rewrite Hop in Ek.
-      change (String.eqb "djmp" "jmp") with false in Ek. change (String.eqb "djmp" "jnz") with false in Ek.
-      change (String.eqb "djmp" "djmp") with true in Ek. cbv iota in Ek.
-      destruct (match_at asm tb [AJump] && forallb (fun t0 => labelled_at asm cert (res f cert t0)) (labels_of (i_args T))) eqn:E; try discriminate Ek.
-      apply andb_true_iff in E as [Hm Hall]. rewrite forallb_forall in Hall. destruct (labelled_at_spec _ _ _ (Hall _ Hin)) as [sr [Hs Hlab]].
-      exists sr. split; auto. split; auto. pose proof (match_at_nth _ _ tb 0 _ Hm eq_refl) as H0. rewrite Nat.add_0_r in H0.
-      cbn [cstep]. rewrite H0. now rewrite (jump_to_label _ _ _ _ Hlab).
+        rewrite Nat.add_0_r in H0. replace (tb + 1)%nat with (S tb) in H1 by lia.
+        (* the stack holds x, the condition is c = iszero x: x <> 0 -> c = 0 -> else-block *)
+        unfold isz in Hv. destruct (top =? 0)%Z eqn:Ez; simpl in Hv; subst t.
+        * exists 2%nat, (tb + 2)%nat. split; auto. cbn [csteps]. rewrite (push_step _ _ _ _ H0 Hlabe). cbn [cstep]. rewrite H1, Ez.
+          f_equal. f_equal. lia.
+        * exists 2%nat, se. split; auto. cbn [csteps]. rewrite (push_step _ _ _ _ H0 Hlabe). cbn [cstep]. rewrite H1, Ez.
+          now rewrite (jump_to_label _ _ _ _ Hlabe).
+      + assert (Hnv : forall v t, vsel T v = Some t -> False).
+        { intros v t Hv. unfold vsel in Hv. rewrite Ejmp, Ejnz in Hv. discriminate. }
+        destruct (String.eqb (i_op T) "djmp") eqn:Edj.
+        * destruct (match_at asm tb [AJump] && forallb (fun t0 => labelled_at asm cert (res f cert t0)) (labels_of (i_args T))) eqn:E; try discriminate Ek.
+          inversion Ek; subst k neg. split; [discriminate|]. split; [intros top st t Hv; exfalso; eauto|].
+          intros _ t st Hin. apply andb_true_iff in E as [Hm Hall]. rewrite forallb_forall in Hall.
+          destruct (labelled_at_spec _ _ _ (Hall _ Hin)) as [sr [Hs Hlab]].
+          exists sr. split; auto. split; auto. pose proof (match_at_nth _ _ tb 0 _ Hm eq_refl) as H0. rewrite Nat.add_0_r in H0.
+          cbn [cstep]. rewrite H0. now rewrite (jump_to_label _ _ _ _ Hlab).
+        * assert (neg = false) by (destruct (nth_error asm tb) as [[]|]; try discriminate Ek; inversion Ek; auto). subst neg.
+          split; [discriminate|]. split; [intros top st t Hv; exfalso; eauto|].
+          intros E. rewrite E in Edj. discriminate Edj.
   Qed.
 
   (* layout: code of distinct blocks is disjoint; a block label occurs only at the start of its block; every block is
@@ -160,17 +206,19 @@ Section SOUND.
   Proof.
     unfold asm_cfg_check in HC. apply andb_true_iff in HC as [H0 Hlab]. apply andb_true_iff in H0 as [H0 Hdis].
     apply andb_true_iff in H0 as [H0 Hall]. apply andb_true_iff in H0 as [H0 Hent]. apply andb_true_iff in H0 as [_ HL].
-    apply Nat.eqb_eq in HL. rewrite forallb_forall in Hdis, Hall, Hlab.
+    apply Nat.eqb_eq in HL. rewrite forallb_forall in Hall, Hlab.
     assert (Hin : forall b, (N.to_nat b < List.length f)%nat -> In b (map N.of_nat (seq 0 (List.length f)))).
     { intros b Hb. apply in_map_iff. exists (N.to_nat b). split; [apply N2Nat.id | apply in_seq; lia]. }
     assert (Hrange : forall b, pos_of cert b <> None -> (N.to_nat b < List.length f)%nat).
     { intros b H. unfold pos_of in H. destruct (Nat.lt_ge_cases (N.to_nat b) (List.length f)); auto. rewrite nth_overflow in H by lia. congruence. }
     split; [|split; [|split]].
-    - intros b b' s tb s' tb' e e' Hne Hp Hp' He He'.
-      pose proof (Hdis b (Hin b (Hrange b ltac:(congruence)))) as H1. rewrite forallb_forall in H1.
-      specialize (H1 b' (Hin b' (Hrange b' ltac:(congruence)))). rewrite Hp, Hp', He, He' in H1.
-      apply orb_true_iff in H1 as [H1|H1]; [apply N.eqb_eq in H1; congruence|].
-      apply orb_true_iff in H1 as [H1|H1]; apply Nat.leb_le in H1; auto.
+    - intros b b' s tb s' tb' e e' Hne Hp Hp' He He'. cbv zeta in Hdis. rewrite forallb_forall in Hdis.
+      assert (Hiv : forall b0 s0 tb0 e0, pos_of cert b0 = Some (s0, tb0) -> block_end f asm cert b0 = Some e0 -> In (b0, s0, e0) (intervals f asm cert)).
+      { intros b0 s0 tb0 e0 H1 H2. unfold intervals. apply in_flat_map. exists b0. split; [apply Hin, Hrange; congruence|].
+        rewrite H1, H2. now left. }
+      pose proof (Hdis _ (Hiv _ _ _ _ Hp He)) as H1. rewrite forallb_forall in H1. specialize (H1 _ (Hiv _ _ _ _ Hp' He')). simpl in H1.
+      apply orb_true_iff in H1 as [H1|H1]; [|apply Nat.leb_le in H1; auto].
+      apply orb_true_iff in H1 as [H1|H1]; [apply N.eqb_eq in H1; congruence | apply Nat.leb_le in H1; auto].
     - intros p l Hp Hl. assert (Hc : In (p, ALabel l) (combine (seq 0 (List.length asm)) asm)).
       { assert (G : forall (a : list item) k p0, nth_error a p0 = Some (ALabel l) -> In ((k + p0)%nat, ALabel l) (combine (seq k (List.length a)) a)).
         { induction a as [|x t IH]; intros k p0 H; [destruct p0; discriminate|]. destruct p0; simpl in *.
